@@ -25,6 +25,8 @@ THEOREMS = {
         "Dawgs.C15.Props.answers_history_independent_refuted",
         "Dawgs.C15.Props.reach_query_terminates_current",
         "Dawgs.C15.Props.c15_full_refuted",
+        "Dawgs.C15.Props.c15_fixed_of_certificate",
+        "Dawgs.C15.Props.c15_fixed_of_tarjan",
     ],
 }
 
@@ -81,7 +83,7 @@ SPEC = {
     "fallback_level": "other",
     "lean_modules": ["Dawgs.Props.C15"],
     "theorems_by_module": THEOREMS,
-    "gate_modules": ["Dawgs.Model.C15", "Dawgs.Spec.C15", "Dawgs.Proofs.C15", "Dawgs.Proofs.C15Tarjan", "Dawgs.Props.C15"],
+    "gate_modules": ["Dawgs.Model.C15", "Dawgs.Spec.C15", "Dawgs.Proofs.C15", "Dawgs.Proofs.C15Tarjan", "Dawgs.Proofs.C15Lift", "Dawgs.Props.C15"],
     "suites": [{"name": "c15", "model_suite": "c15fixed" if _mode == "fixed" else "c15", "monitor_suite": "c15mon",
                 "keep_prefix": 2, "thorough_seeds": 2, "shrink_budget": 200}],
     "nontrivial": nontrivial,
